@@ -297,6 +297,17 @@ impl RefIntegrity {
     pub fn present(&self, ty: u16) -> bool {
         self.attrs.iter().any(|x| x.1 == ty)
     }
+    /// correctness of the integrity attribute at attribute index `idx`
+    pub fn correct_at(&self, idx: usize) -> Option<bool> {
+        self.attrs.iter().find(|x| x.0 == idx).map(|x| x.2)
+    }
+}
+
+/// Index of the last *exposed* integrity attribute (C10 rule): the one RFC 8489 s9 makes
+/// authoritative when both are present (MESSAGE-INTEGRITY-SHA256 directly after
+/// MESSAGE-INTEGRITY), and the end of the tamper range of C04.
+pub fn last_exposed_integrity(attrs: &[RefAttr]) -> Option<usize> {
+    expose(attrs).into_iter().rev().find(|i| attrs[*i].ty == MI || attrs[*i].ty == MI256)
 }
 
 pub fn ref_integrity(b: &[u8], attrs: &[RefAttr], creds: &RefCreds) -> RefIntegrity {
@@ -376,6 +387,9 @@ pub enum Seal {
     BadSha1,
     BadSha256(usize),
     BadFingerprint,
+    /// an integrity attribute of the given type whose value has an impossible length (the genuine
+    /// HMAC cut or zero-extended to `len` bytes): accepted by the parser, never valid
+    OddLen(u16, usize),
 }
 
 /// Append a sealing attribute computed by the reference over the current buffer; fixes the length.
@@ -397,6 +411,12 @@ pub fn seal(b: &mut Vec<u8>, s: Seal, key: &[u8]) {
                 h[3] ^= 0x01;
             }
             push_tlv(b, &Tlv::new(MI256, h));
+        }
+        Seal::OddLen(ty, n) => {
+            let text = integrity_text_for_append(b, n);
+            let mut h = if ty == MI { hmac_sha1(key, &text).to_vec() } else { hmac_sha256(key, &text).to_vec() };
+            h.resize(n, 0);
+            push_tlv(b, &Tlv::new(ty, h));
         }
         Seal::Fingerprint | Seal::BadFingerprint => {
             let mut tmp = b.clone();
